@@ -22,5 +22,10 @@ CONSTANTS
   FreshPerCall = TRUE
   ShareChoices = {FALSE}
   PerWriterWrapper = FALSE
+  FlushKinds = {"none"}
+  ErrKinds = {"plain"}
+  FlushAtEnd = FALSE
+  RetryKinds = {}
+  MaxRetry = 0
 INVARIANTS NeverFails AlwaysFails NeverSkips NoHistory
 CHECK_DEADLOCK FALSE
